@@ -1,12 +1,17 @@
 (* C08 - compile-time optimisations never change any result.
    Full statement: every API on (compile d p f) = the same API on (compile_unopt d p f).  Not proved
-   (needs E1, O1, O2).  Proved so far: the two first-term filters of the search loop are sound (a
-   start position skipped by the literal-prefix scan or the first-character filter cannot start a
-   match), and a literal (flag q) program is the same tree with and without optimisation.  The
+   in full.  Proved: on the fragment of EngineFacts (no back-reference, no variable-length repeat), a
+   program whose operation starts with a literal or a class gives with the search shortcuts
+   (minimum-length cut-off + literal-prefix scan, or first-character filter) exactly the outcome -
+   match / no match and the end of the reported match - that the same operation tree gives with
+   every shortcut off (O1 min-length soundness + O2 filter soundness + E5); the two first-term
+   filters are sound at the operation level; a literal (flag q) program is the same tree with and
+   without optimisation.  Not proved: Operation::optimize (the UnambiguousRepeat rewrite and the
+   repeat simplifications), positional preconditions, the start-anchor fast path.  The
    property is otherwise decided on every run by the four-way correspondence (code optimised /
    unoptimised through the hook, model optimised / unoptimised). *)
 From RX Require Import Base.Prelude Base.InvList Model.Case Model.Op Model.Engine Model.Matcher Model.Compiler
-     Proofs.FilterFacts Proofs.LeafFacts.
+     Model.Api Proofs.FilterFacts Proofs.LeafFacts Proofs.EngineFacts Proofs.ShortcutFacts.
 
 Theorem C08_prefix_filter_sound_partial :
   forall input ci multi hb pre rest path j s,
@@ -30,6 +35,26 @@ Proof.
   eexists. eexists. repeat split; reflexivity.
 Qed.
 
+Theorem C08_shortcuts_pure_literal_first_partial :
+  forall pat K ci multi lit hbk input pre rest i s,
+    let o := OSeq (OAtom pre :: rest) in
+    simple input ci multi hbk K o -> rest <> [] -> (N.of_nat (length pre) <= min_length o)%N ->
+    i <= length input -> length (sb s) = length (eb s) ->
+    same_outcome (matches (mk_program pat o K ci multi lit hbk) input i s)
+                 (matches (mk_program_unopt pat o K ci multi lit hbk) input i s).
+Proof. exact shortcuts_pure_literal_first. Qed.
+
+Theorem C08_shortcuts_pure_class_first_partial :
+  forall pat K ci multi lit hbk input cls rest i s,
+    let o := OSeq (OCls cls :: rest) in
+    simple input ci multi hbk K o -> rest <> [] ->
+    i <= length input -> length (sb s) = length (eb s) ->
+    same_outcome (matches (mk_program pat o K ci multi lit hbk) input i s)
+                 (matches (mk_program_unopt pat o K ci multi lit hbk) input i s).
+Proof. exact shortcuts_pure_class_first. Qed.
+
 Print Assumptions C08_prefix_filter_sound_partial.
 Print Assumptions C08_first_class_filter_sound_partial.
 Print Assumptions C08_literal_same_tree_partial.
+Print Assumptions C08_shortcuts_pure_literal_first_partial.
+Print Assumptions C08_shortcuts_pure_class_first_partial.
